@@ -246,7 +246,7 @@ func worker(t *testing.T, c core.Cfg) {
 	distinct := map[uint64]bool{}
 	inter := map[uint64]bool{}
 	maxViol := 6
-	selfcheck(t, part)
+	selfcheck(t, c, part)
 	for g := c.Worker; time.Now().Before(deadline) && len(part.Violations) < maxViol; g += nw {
 		gseed := core.Derive(c.Seed, c.Property, "graph", fmt.Sprint(g))
 		w := Gen(gseed, faulty)
@@ -500,25 +500,33 @@ func dynamicProbes(w *Workload, e *Expect, o *Outcome, c core.Counters) {
 	}
 }
 
-// selfcheck validates assumptions the oracles rely on, on the code under test; a failure
-// here means the harness's model of "certainly bad" is wrong: exit 2, not a verdict.
-func selfcheck(t *testing.T, part *core.Partial) {
+// selfcheck runs the smallest cases first: one sound file must compile, and one file
+// carrying each "certainly bad" content kind must fail.  On the unchanged tree this
+// validates the harness's notion of "certainly bad"; a tree on which garbage compiles
+// violates C06 outright, and the case is reported like any other run.
+func selfcheck(t *testing.T, c core.Cfg, part *core.Partial) {
 	for _, kind := range []string{"garbage-import", "garbage-body"} {
-		w := &Workload{Files: []*FileSpec{{ID: 0, Path: "f0.sysl", Kind: "sysl"}}}
+		w := &Workload{Family: "plain", Template: "selfcheck", Files: []*FileSpec{{ID: 0, Path: "f0.sysl", Kind: "sysl"}}}
 		w.Files[0].Text = render(w, w.Files[0])
 		ft := Fault{File: 0, Kind: kind, Certain: true}
 		applyContentFault(w.Files[0], &ft)
 		w.Faults = []Fault{ft}
 		o := Execute(t, w, core.First{}, 100)
-		if o.OK {
-			part.HarnessErr = "selfcheck: content fault " + kind + " compiles; the fault kind is not certain"
+		for _, v := range Check(w, Model(w), o, nil, true) {
+			if c.Property == "C06" && c.Worker == 0 {
+				p := writeReplay(c, found{v: v, w: w, picks: o.Picks, o: o}, true, 0)
+				part.Violations = append(part.Violations, core.ViolationRec{Class: v.Class, Detail: v.Detail, Replay: p})
+			}
 		}
 	}
-	w := &Workload{Files: []*FileSpec{{ID: 0, Path: "f0.sysl", Kind: "sysl"}}}
+	w := &Workload{Family: "plain", Template: "selfcheck", Files: []*FileSpec{{ID: 0, Path: "f0.sysl", Kind: "sysl"}}}
 	w.Files[0].Text = render(w, w.Files[0])
 	o := Execute(t, w, core.First{}, 100)
-	if !o.OK || len(o.Order) != 1 {
-		part.HarnessErr = fmt.Sprintf("selfcheck: a single sound file does not compile as expected: ok=%v err=%s order=%v", o.OK, o.Err, o.Order)
+	for _, v := range Check(w, Model(w), o, nil, false) {
+		if c.Worker == 0 {
+			p := writeReplay(c, found{v: v, w: w, picks: o.Picks, o: o}, false, 0)
+			part.Violations = append(part.Violations, core.ViolationRec{Class: v.Class, Detail: v.Detail, Replay: p})
+		}
 	}
 }
 
